@@ -123,7 +123,7 @@ func panicGuardedByReaderErr(pn *ssa.Panic) bool {
 	for _, f := range core.FactsAtInstr(pn) {
 		if cmp, ok := f.AsCmp(); ok {
 			if ex, ok := cmp.X.(*ssa.Extract); ok {
-				if call, ok := ex.Tuple.(*ssa.Call); ok && strings.HasSuffix(core.StaticCalleeName(&call.Call), "/v2.tokenizeStream") {
+				if call, ok := ex.Tuple.(*ssa.Call); ok && isTokenizeStream(call.Call.StaticCallee()) {
 					// reader must be a bytes.NewReader
 					if r, ok := call.Call.Args[0].(*ssa.MakeInterface); ok {
 						if rc, ok := r.X.(*ssa.Call); ok && core.StaticCalleeName(&rc.Call) == "bytes.NewReader" {
